@@ -34,7 +34,8 @@ FINDINGS = {
     "K10": {"props": ["C11"],
             "what": "a second write through a held reference to a nested structure of a union is lost (p = u.a; p.x = 1; "
                     "p.y = 2: the rebuild after the first write replaced u.a, the old proxy writes to the dead object)"},
-    "K11": {"props": ["C16"],
+    "K11": {"props": [],      # repaired (repair 91); kept for the record
+
             "what": "a pointer inside a fixed-size union keeps the union's private byte buffer as its stream: dereferencing "
                     "reads relative to the union's start instead of the absolute stream offset"},
     "K12": {"props": [],      # repaired (repair 90); kept for the record
